@@ -13,8 +13,8 @@ import (
 
 	"github.com/sheerbytes/sheerbytes/internal/transfer"
 	quic "github.com/sheerbytes/sheerbytes/internal/verif/venv/vquic"
-	vrt "github.com/sheerbytes/sheerbytes/internal/verif/vrt"
 	"github.com/sheerbytes/sheerbytes/internal/verif/vlib"
+	vrt "github.com/sheerbytes/sheerbytes/internal/verif/vrt"
 )
 
 // ---- C17: each needed chunk and each file is dispatched exactly once, then one FileEnd ----
@@ -58,6 +58,9 @@ type c17Rec struct {
 	sendErr     error
 	returned    bool
 	lastVerify  map[uint64]bool
+	// verifChunk: per file key, the chunk whose hash the scripted receiver reports as wrong
+	// (-1 / absent: no failed verification in this case)
+	verifChunk map[uint64]int
 }
 
 var c17cur *c17Rec
@@ -96,6 +99,14 @@ func c17Hook(kind string, args []any) {
 			return
 		}
 		h := handout{key: in.Key, idx: idx, resend: r.lastVerify[in.Key]}
+		// The probes sit outside the method's own lock: the verdict that sets the re-send can
+		// land between the entry snapshot and the decision taken under the lock. A hand-out of
+		// the chunk that failed verification, with a present bit and nothing pending any more
+		// at exit, is that re-send - not a present chunk leaking through the normal path.
+		if vc, ok := r.verifChunk[in.Key]; ok && !h.resend && int(idx) == vc && !in.ResendPending && in.PlanKnown &&
+			int(idx) < len(in.Present) && in.Present[idx] && idx < in.ForceSendFrom {
+			h.resend = true
+		}
 		if r.taken[in.Key] == nil {
 			r.taken[in.Key] = map[uint32]int{}
 		}
@@ -237,6 +248,23 @@ func runC17(c C17Case) {
 		c17prep[pk] = p
 	}
 	items := fileItems(p)
+	r.verifChunk = map[uint64]int{}
+	if c.Hash == "wrong" && !c.NoAns {
+		for fi, it := range items {
+			bits, highest := 0, -1
+			if fi < len(c.Bitmap) {
+				bits = c.Bitmap[fi]
+			}
+			for i := 0; i < c.Chunks[fi]; i++ {
+				if bits&(1<<uint(i)) != 0 {
+					highest = i
+				}
+			}
+			if highest >= 0 {
+				r.verifChunk[fileKey(it)] = highest
+			}
+		}
+	}
 	cl, sv := quic.NewPair("conn0")
 	obs := &c17Obs{r}
 	cl.Obs, sv.Obs = obs, obs
@@ -347,7 +375,7 @@ func runC17(c C17Case) {
 
 func checkC17(c C17Case, x *vrt.Exec) {
 	r := c17cur
-	rp := replayT{Mode: "c17", Choices: append([]int{}, x.Choices()...), Extra: vlib.JSON(c)}
+	rp := replayT{Mode: "c17", Choices: append([]int{}, x.Choices()...), Extra: vlib.JSON(c)}.withCfg(x)
 	if x.Outcome != "ok" {
 		if x.Outcome == "panic" {
 			res.Violate("panic", "xfer/c17", map[string]any{"panic": x.Detail}, fmt.Sprintf("%s: panic %s", c, x.Detail), rp)
@@ -500,8 +528,43 @@ func modeC17() {
 		st.add(e)
 		res.SampleSpread(int64(i), c.String())
 	}
+	// Lock-level phase: the smallest cases once more with mutex acquisitions as scheduling points
+	// and the demote deviation at bound 2, every shard taking its share of the first-level
+	// subtrees - check-then-act sequences in the sender's bookkeeping need lock points.
+	lockCases := []C17Case{
+		{Chunks: []int{1}, Streams: 1, Bitmap: []int{1}, Hash: "wrong", Tail: 1},
+		{Chunks: []int{2}, Streams: 2, Bitmap: []int{1}, Hash: "right", Tail: 0},
+		{Chunks: []int{2}, Streams: 1, Bitmap: []int{3}, Hash: "wrong", Tail: 0},
+	}
+	if thorough {
+		lockCases = append(lockCases,
+			C17Case{Chunks: []int{2}, Streams: 2, Bitmap: []int{0}, Hash: "right", Tail: 0},
+			C17Case{Chunks: []int{3}, Streams: 2, Bitmap: []int{5}, Hash: "wrong", Tail: 1},
+			C17Case{Chunks: []int{2}, Streams: 2, NoAns: true},
+			C17Case{Chunks: []int{1, 1}, Streams: 2, Bitmap: []int{0, 1}, Hash: "wrong"},
+			C17Case{Chunks: []int{2}, Streams: 2, Bitmap: []int{2}, Hash: "unknown", Tail: 1, Delay: 400})
+	}
+	lcfg := baseCfg()
+	lcfg.LockPoints = true
+	lcfg.Demote = true
+	var lockExecs int64
+	for i, c := range lockCases {
+		c := c
+		e := &vrt.Explorer{Cfg: lcfg, Bound: 2, Deadline: deadline, Root: func() { runC17(c) }}
+		e.Shard, e.NShards = vlib.F.Shard, vlib.F.NShards
+		e.Visit = func(x *vrt.Exec) bool {
+			lockExecs++
+			checkC17(c, x)
+			res.Nontrivial(fmt.Sprintf("L2|%s|%x", c, x.Trace()))
+			return true
+		}
+		e.Run()
+		st.add(e)
+		res.SampleSpread(int64(len(cases)+i), "lock-level: "+c.String())
+	}
+	res.Extra["lock_phase_executions"] = float64(lockExecs)
 	vrt.EmitHook = nil
-	st.cases = len(cases)
+	st.cases = len(cases) + len(lockCases)
 	for _, p := range c17prep {
 		os.RemoveAll(p.SrcRoot)
 	}
